@@ -67,8 +67,10 @@ impl<'a> Lexer<'a> {
 
         if is_float {
             match value.parse::<f64>() {
-                Ok(f) => self.add_token(TokenKind::Float(f), start),
-                Err(_) => {
+                // `parse` maps a literal that is too large for an f64 (e.g. `1e999`) to infinity; there is no
+                // such literal, so it is reported like any other malformed float.
+                Ok(f) if f.is_finite() => self.add_token(TokenKind::Float(f), start),
+                _ => {
                     self.errors.push(CompileError::new(
                         format!("Invalid float literal: {}", value),
                         Span::new(start, self.current_pos),
